@@ -144,6 +144,17 @@ func genC08(p *pkgInfo, l *leanFile) {
 			}
 			return true
 		})
+		// the empty-read counter, whatever it is called: the variable of Lock that is incremented
+		counter := "emptyCount"
+		ast.Inspect(fd.Body, func(n ast.Node) bool {
+			if inc, ok := n.(*ast.IncDecStmt); ok && inc.Tok == token.INC {
+				if id, ok := inc.X.(*ast.Ident); ok {
+					counter = id.Name
+					return false
+				}
+			}
+			return true
+		})
 		ast.Inspect(fd.Body, func(n ast.Node) bool {
 			switch x := n.(type) {
 			case *ast.SelectStmt:
@@ -156,7 +167,7 @@ func genC08(p *pkgInfo, l *leanFile) {
 				// the branch that counts an empty read
 				direct := false
 				for _, st := range x.Body.List {
-					if inc, ok := st.(*ast.IncDecStmt); ok && exprStr(inc.X) == "emptyCount" && inc.Tok == token.INC {
+					if inc, ok := st.(*ast.IncDecStmt); ok && exprStr(inc.X) == counter && inc.Tok == token.INC {
 						direct = true
 					}
 				}
@@ -168,7 +179,7 @@ func genC08(p *pkgInfo, l *leanFile) {
 						decodeErrReturn = c08Contains(x.Else, func(m ast.Node) bool { _, ok := m.(*ast.ReturnStmt); return ok })
 					}
 				}
-				if b, ok := x.Cond.(*ast.BinaryExpr); ok && b.Op == token.LSS && exprStr(b.X) == "emptyCount" {
+				if b, ok := x.Cond.(*ast.BinaryExpr); ok && b.Op == token.LSS && exprStr(b.X) == counter {
 					if lit, ok := b.Y.(*ast.BasicLit); ok {
 						maxEmpty, _ = strconv.ParseInt(lit.Value, 0, 64)
 					}
@@ -203,7 +214,7 @@ func genC08(p *pkgInfo, l *leanFile) {
 						// the fresh branch: is the empty-read counter reset here?
 						resetOnFresh = c08Contains(&ast.BlockStmt{List: cc.Body}, func(m ast.Node) bool {
 							a, ok := m.(*ast.AssignStmt)
-							return ok && a.Tok == token.ASSIGN && len(a.Lhs) == 1 && exprStr(a.Lhs[0]) == "emptyCount" && exprStr(a.Rhs[0]) == "0"
+							return ok && a.Tok == token.ASSIGN && len(a.Lhs) == 1 && exprStr(a.Lhs[0]) == counter && exprStr(a.Rhs[0]) == "0"
 						})
 					}
 					switchCases = append(switchCases, kind)
@@ -217,7 +228,7 @@ func genC08(p *pkgInfo, l *leanFile) {
 				if is, ok := n.(*ast.IfStmt); ok && is.Else != nil && decVar != "" && exprStr(is.Cond) == decVar+" != nil" {
 					resetOnFresh = resetOnFresh || c08Contains(is.Else, func(m ast.Node) bool {
 						a, ok := m.(*ast.AssignStmt)
-						return ok && a.Tok == token.ASSIGN && exprStr(a.Lhs[0]) == "emptyCount" && exprStr(a.Rhs[0]) == "0"
+						return ok && a.Tok == token.ASSIGN && exprStr(a.Lhs[0]) == counter && exprStr(a.Rhs[0]) == "0"
 					})
 				}
 				return true
